@@ -67,6 +67,73 @@ func genTrackPiece(r *rand.Rand, maxLen int) model.Piece {
 	return p
 }
 
+// compareTracks runs the piece with --track 1 and with every N of ns and judges merged content and
+// end-of-track ticks. A refusal for N >= 2 is only acceptable when allowRefusal is set (pieces beyond
+// 2^28 ticks, where an idle track's delay cannot be encoded).
+func compareTracks(c *core.Ctx, stream string, i int, p model.Piece, ns []int, allowRefusal bool) bool {
+	sig := fmt.Sprintf("%s#%d", stream, i)
+	r1, out1 := playPiece(c, p, model.Flags{Track: 1}, writeOpts{})
+	if infra(c, r1) {
+		return false
+	}
+	if a := abnormal(r1); a != "" {
+		c.Violate(stream, i, sig+":n1:abnormal", "crd write --track 1 "+a, withYAML(obs(r1), p))
+		return false
+	}
+	if !r1.OK() {
+		if !allowRefusal {
+			c.Violate(stream, i, sig+":n1:failed", "crd write --track 1 fails on a valid document", withYAML(obs(r1), p))
+		}
+		return false
+	}
+	f1, derr := decodeSMF(out1)
+	if f1 == nil {
+		c.Violate(stream, i, sig+":n1:decode", "--track 1: "+derr, withYAML(obs(r1), p))
+		return false
+	}
+	ref := mergedMultiset(f1)
+	totals := model.StartSets(f1.Division, p)
+	total := totals[len(totals)-1]
+	for _, n := range append([]int{1}, ns...) {
+		fn := f1
+		if n > 1 {
+			rn, outn := playPiece(c, p, model.Flags{Track: n}, writeOpts{})
+			if infra(c, rn) {
+				return false
+			}
+			if a := abnormal(rn); a != "" {
+				c.Violate(stream, i, fmt.Sprintf("%s:n%d:abnormal", sig, n), fmt.Sprintf("crd write --track %d %s", n, a), withYAML(obs(rn), p))
+				return false
+			}
+			if !rn.OK() {
+				if !allowRefusal {
+					c.Violate(stream, i, fmt.Sprintf("%s:n%d:failed", sig, n), fmt.Sprintf("crd write --track %d fails on a document that --track 1 accepts", n), withYAML(obs(rn), p))
+					return false
+				}
+				c.Count("refused_beyond_2^28", 1)
+				continue
+			}
+			fn, derr = decodeSMF(outn)
+			if fn == nil {
+				c.Violate(stream, i, fmt.Sprintf("%s:n%d:decode", sig, n), fmt.Sprintf("--track %d: %s", n, derr), withYAML(obs(rn), p))
+				return false
+			}
+			if got := mergedMultiset(fn); !eqStrs(got, ref) {
+				c.Violate(stream, i, fmt.Sprintf("merged:n=%d", n), fmt.Sprintf("--track %d: merged events differ from --track 1: %s", n, firstDiff(got, ref)), pieceDesc(p, model.Flags{Track: n}))
+				return false
+			}
+		}
+		for ti, t := range fn.Tracks {
+			if !model.InSet(total, t.EndTick) {
+				c.Violate(stream, i, fmt.Sprintf("eot:n=%d", n), fmt.Sprintf("--track %d: end-of-track of track %d at tick %d, the piece lasts %v ticks", n, ti, t.EndTick, total), pieceDesc(p, model.Flags{Track: n}))
+				return false
+			}
+		}
+		c.Seen("track_counts", fmt.Sprint(n))
+	}
+	return true
+}
+
 func checkC06(c *core.Ctx) {
 	c.Rule("random instance documents (chords of 3..6 notes, rests leading/inner/trailing, tempo/meter/key/text changes anywhere) each written with several --track N; " +
 		"merged multiset of (absolute tick, event bytes) without end-of-track must equal that of --track 1, and every track's end-of-track tick must be the total duration computed in exact rationals (trailing rests included); " +
@@ -160,6 +227,40 @@ func checkC06(c *core.Ctx) {
 		}
 		if c.WantSample() {
 			c.Sample(pieceDesc(p, model.Flags{}))
+		}
+	})
+
+	// long pieces: hundreds of ops per track
+	c.Stream("long", c.N(40, 400), func(i int, r *rand.Rand) {
+		n := 120 + r.Intn(300)
+		p := model.RandPiece(r, model.GenOpts{MinLen: n, MaxLen: n, RestProb: 0.1, SettingProb: 0.03, TextProb: 0.05, KeyChanges: true, BassProb: 0.3, MaxDeg: 9})
+		if !p.Effective(model.Flags{}).AllInRange() || !p.TotalBelow(960, 1<<28) {
+			return
+		}
+		ns := []int{2, 3, 4, 5, 8}
+		if !c.Quick() {
+			ns = []int{2, 3, 4, 5, 6, 7, 8, 12, 16, 32}
+		}
+		if compareTracks(c, "long", i, p, ns, false) {
+			c.Nontrivial(fmt.Sprintf("long%d", i))
+		}
+	})
+	// pieces longer than 2^28 ticks whose single deltas all fit: refusal is fine, a wrong file is not
+	c.Stream("beyond", c.N(12, 60), func(i int, r *rand.Rand) {
+		var p model.Piece
+		k := 3 + r.Intn(4)
+		for j := 0; j < k; j++ {
+			in := model.Instance{Values: []model.Frac{{Num: uint64(80000 + r.Intn(150000)), Den: 1}}}
+			if r.Intn(4) != 0 {
+				in.Chord = &model.ChordSpec{Deg: model.SimpleInterval(r, 7), Symbol: "m7"}
+			}
+			if j > 0 && r.Intn(3) == 0 {
+				in.BPM = model.RandBPM(r)
+			}
+			p.Inst = append(p.Inst, in)
+		}
+		if compareTracks(c, "beyond", i, p, []int{2, 3, 8}, true) {
+			c.Nontrivial(fmt.Sprintf("beyond%d", i))
 		}
 	})
 }
